@@ -293,13 +293,40 @@ func (g *gen) wildStmt() {
 		g.newVar(TStr, "selfapp("+r+", \"\")")
 		g.feat("closure-recursion")
 	case 9:
-		g.emit("for {")
-		g.emit("\tdefer sink1(%d, %s)", g.nextLine()+0, g.expr(TStr, 1))
-		g.prog.Sinks[g.nextLine()-1] = "sink1"
-		g.emit("\tif cond(%d) {", g.bit())
-		g.emit("\t\tbreak")
-		g.emit("\t}")
-		g.emit("}")
+		switch g.intn(3, "deferloopk") {
+		case 0:
+			g.emit("for {")
+			g.emit("\tdefer sink1(%d, %s)", g.nextLine()+0, g.expr(TStr, 1))
+			g.prog.Sinks[g.nextLine()-1] = "sink1"
+			g.emit("\tif cond(%d) {", g.bit())
+			g.emit("\t\tbreak")
+			g.emit("\t}")
+			g.emit("}")
+		case 1:
+			// two different defer statements in one cycle
+			g.emit("for {")
+			g.emit("\tdefer sink1(%d, %s)", g.nextLine()+0, g.expr(TStr, 1))
+			g.prog.Sinks[g.nextLine()-1] = "sink1"
+			g.emit("\tdefer func() { G0 = %s }()", g.expr(TStr, 1))
+			g.emit("\tif cond(%d) {", g.bit())
+			g.emit("\t\tbreak")
+			g.emit("\t}")
+			g.emit("}")
+			g.feat("two-defers-in-loop")
+		default:
+			// one defer in an outer loop and one in an inner loop
+			i, j := g.fresh(), g.fresh()
+			g.emit("for %s := 0; %s < bound(%d); %s++ {", i, i, g.bit(), i)
+			g.nbits++
+			g.emit("\tdefer func() { G0 = %s }()", g.expr(TStr, 1))
+			g.emit("\tfor %s := 0; %s < bound(%d); %s++ {", j, j, g.bit(), j)
+			g.nbits++
+			g.emit("\t\tdefer sink1(%d, %s)", g.nextLine()+0, g.expr(TStr, 1))
+			g.prog.Sinks[g.nextLine()-1] = "sink1"
+			g.emit("\t}")
+			g.emit("}")
+			g.feat("two-defers-in-loop")
+		}
 		g.feat("defer-in-loop")
 	case 10:
 		g.newVar(TBytes, "bytesOf("+g.expr(TStr, 1)+")")
